@@ -47,6 +47,10 @@ def opsC18 : List (String × Op) := [
           ("impl.size_ok", ofBool sizeImpl),
           ("self.ok", ofBool (subOK ds outs lab && idsOK outs lab && areaOutletsOK ds uparea amin outs && sizeSelf)),
           ("usok", ofBool (usMainOK ds usMain)),
+          ("rank_sorted", ofBool (rankOrderOK ds seq)),
+          ("acc_ok", ofBool (match a.optInts "area" with
+            | some ar => if ds.size ≤ 64 then accumOK ds seq ar uparea else true
+            | none => true)),
           ("topo", ofBool (isTopo ds seq))]),
   ("c18_pfaf", fun a => do
     let ds ← a.nats "ds"
